@@ -346,7 +346,17 @@ def frame1(ctx: Ctx, chk) -> None:
         in_try = _enclosing_try_catching(ctx, write, n, OSERR)
         w_in_try = wr and wr[0][0] is write and _enclosing_try_catching(ctx, write, wr[0][1], OSERR)
         after = wr and wr[0][0] is write and n.lineno >= wr[0][1].lineno
-        if awaited and in_try and w_in_try and after:
+        # ... and on every path: a drain that is skipped under some condition (buffer looks empty, small message) leaves
+        # the write unobserved - a lost connection only ever shows up in drain()
+        from ..cfg import CFG as _CFG
+
+        gw_ = _CFG(write.node)
+        dn_ = gw_.nodes_where(lambda x: x.contains(n))
+        wn_ = gw_.nodes_where(lambda x: wr and x.contains(wr[0][1])) if wr and wr[0][0] is write else []
+        skip = gw_.reach_avoiding(wn_, lambda x: x is gw_.exit, lambda x: x in dn_, from_succ=True) if wn_ and dn_ else None
+        if awaited and in_try and w_in_try and after and skip is not None:
+            chk.refute(rule, key, f"write() can return without awaiting drain() ({' -> '.join(gw_.path_text(skip)[:4])}): asyncio's transport.write() never raises - on a lost connection it discards the data - so the I/O error only ever surfaces in drain(); a write that skips it reports success for bytes that went nowhere", ctx.loc(f, n))
+        elif awaited and in_try and w_in_try and after:
             chk.ok(rule, key, "await writer.drain() after write, both inside the OSError mapping", ctx.loc(f, n))
         else:
             chk.refute(rule, key, f"drain is {'not awaited' if not awaited else 'outside the OSError mapping' if not (in_try and w_in_try) else 'before the write'}", ctx.loc(f, n))
